@@ -1,4 +1,5 @@
 import SonicSpec.Model.JsonValidate
+import SonicSpec.Model.JsonGeneric
 /-
   Driver for property C02.   valid <api|all> <doc hex> [name=hex ...]
   Answers what the model says about the document (and about the document wrapped as a member value
@@ -69,7 +70,31 @@ def extras : List String → List String
         | none => extras r)
     | _ => extras r
 
+/-- stack slots the generic decoder needs above the first one (`TVal`'s index), computed on the tree -/
+partial def gneed : JVal → Nat
+  | .arr [] => 1
+  | .arr xs => 1 + xs.foldl (fun a x => max a (gneed x)) 0
+  | .obj [] => 0
+  | .obj kvs => 1 + kvs.foldl (fun a kv => max a (gneed kv.2)) 0
+  | _ => 0
+
+def gStates : List GState := [.val, .arr, .arr0, .obj, .obj0, .objDelim, .objSep]
+def gToks : List (String × GTok) :=
+  [("scalar", .scalar), ("str", .str), ("lb", .lb), ("lc", .lc), ("colon", .colon), ("comma", .comma), ("rb", .rb), ("rc", .rc)]
+def gnum : Option GState → Nat
+  | none => 0
+  | some s => s.num
+
+/-- `gentab`: the decision table the theorems are about, one entry per (token, state):
+    tok:state:setTop:setBelow:push:pop  (state numbers as in the Go source, 0 = none, `-` = error) -/
+def gentab : String :=
+  " ".intercalate (gToks.flatMap fun (n, t) => gStates.map fun s =>
+    match gTable t s with
+    | none => s!"{n}:{s.num}:-"
+    | some a => s!"{n}:{s.num}:{gnum a.setTop}:{gnum a.setBelow}:{gnum a.push}:{a.pop}")
+
 def handle : List String → Option String
+  | ["gentab"] => some ("model=" ++ gentab)
   | "valid" :: "typed" :: h :: _ =>
     -- typed destinations: only the two grammars are asked (the compiled decoders are not the FSM)
     (unhexArg h).map fun s =>
@@ -83,10 +108,14 @@ def handle : List String → Option String
       let skip := match skipApi s with
         | .ok a b => s!"ok:{a}:{b}"
         | .err k _ => s!"err:{errName k}"
+      let skipU := match validate (s.length + 1) .dflt s with
+        | .ok a b => s!"ok:{a}:{b}"
+        | .err k _ => s!"err:{errName k}"
       let first := report "" s
       let fields := first ++
-        [ s!"valid={b01 (Valid s)}", s!"newraw={b01 (newRawB s)}", s!"skip={skip}",
-          s!"tree={b01 (parseDoc s).isSome}", s!"depth={nesting s 0 0 false}" ] ++
+        [ s!"valid={b01 (Valid s)}", s!"newraw={b01 (newRawB s)}", s!"skip={skip}", s!"skipU={skipU}",
+          s!"tree={b01 (parseDoc s).isSome}",
+          s!"gframes={match parseDoc s with | some v => toString (gneed v) | none => "-"}", s!"depth={nesting s 0 0 false}" ] ++
         report "w_" w ++ [s!"w_depth={nesting w 0 0 false}",
           s!"m_structB={b01 (memberB .dflt s)}",
           s!"m_valB={if s.length ≤ 70000 then b01 (memberB .validate s) else "-"}"] ++ extras more
